@@ -10,6 +10,7 @@ import LhasaV.Lemmas.ExtractTreeOpt
 import LhasaV.Lemmas.PrintList
 import LhasaV.Lemmas.ExtractTreeOw
 import LhasaV.Lemmas.ExtractTreeImp
+import LhasaV.Lemmas.ArchiveOs
 /-!
 # C06 — extraction reproduces the archived tree: contents, names, times, modes, links
 -/
@@ -429,5 +430,42 @@ theorem extract_mixed (es : List Entry) (hwf : WFI [] [] es) (henc : Encodable e
       (es ≠ [] → fs.cwd ≠ [] → t = fs.now)) ∧
     (∀ x, ¬ fs.cwd <+: x → Fs.lookup (run (archiveOf es) o fs answers).fs x = Fs.lookup fs x) :=
   ArchiveOf.extract_archiveOf_mixed es hwf henc o fs answers ho hfs ha
+
+/-! ## other header shapes: LHark (`-lk7-`), any OS type, level-0 headers -/
+
+open ExtractTree ExtractTree.Sample ArchiveOf ArchivePack ArchiveOs Contain in
+/-- **LHark members.** What LHark writes — `-lh7-` in a level-1 header with OS type ' ', data in
+LHark's own length/distance code — is presented by the reader as `-lk7-` and extracted exactly
+(names `CaseStable`: for this DOS-like OS type a path WITHOUT any lower-case letter is folded to
+lower case by the parser, shown necessary by a `#guard` in Lemmas/ArchiveOs). With this the closed
+theorem covers all twelve decodable methods. -/
+theorem extract_reproduces_tree_lk7 (es : List Entry) (hwf : WellFormed es) (henc : Encodable es)
+    (hcase : ∀ e ∈ es, CaseStable e) (hfit : FilesSat (fun d => d.length < 4294000000) es)
+    (o : Opts) (fs : Fs.St) (answers : Bytes) (ho : OptsOk o) (hfs : EmptyDir fs) (ha : Access fs) :
+    Reproduces (archiveWithOs 0x20 lk7Lit es) es o fs answers :=
+  ArchiveOs.extract_archive_lk7 es hwf henc hcase hfit o fs answers ho hfs ha
+
+open ExtractTree ExtractTree.Sample ArchiveOf ArchivePack ArchiveOs Contain in
+/-- **Level-0 headers** (LHarc / LArc style: path and name in the base header, DOS time stamp):
+plain level 0 for all eleven methods — times are even seconds from 1980 (`dosTime_inverse`: the DOS
+stamp round-trips), no permissions or links (the format has none) — and level 0 with the Unix area
+(`extract_level0_unix`: exact time, permissions, links as `name|target`). -/
+theorem extract_level0_dos (m : Method) (es : List Entry) (hwf : WellFormed es) (henc : Encodable es)
+    (h0 : Encodable0Dos es) (hfit : FilesSat m.fits es)
+    (o : Opts) (fs : Fs.St) (answers : Bytes) (ho : OptsOk o) (hfs : EmptyDir fs) (ha : Access fs) :
+    Reproduces (archive0Dos (m.packer false) es) es o fs answers :=
+  ArchiveOs.extract_archive_level0_dos_method m es hwf henc h0 hfit o fs answers ho hfs ha
+
+open ExtractTree ExtractTree.Sample ArchiveOf ArchivePack ArchiveOs Contain in
+theorem extract_level0_unix (m : Method) (hm : m ≠ .pm1 ∧ m ≠ .pm2) (es : List Entry) (hwf : WellFormed es)
+    (henc : Encodable es) (h0 : Encodable0 es) (hfit : FilesSat m.fits es)
+    (o : Opts) (fs : Fs.St) (answers : Bytes) (ho : OptsOk o) (hfs : EmptyDir fs) (ha : Access fs) :
+    Reproduces (archive0 (m.packer false) es) es o fs answers :=
+  ArchiveOs.extract_archive_level0_method m hm es hwf henc h0 hfit o fs answers ho hfs ha
+
+/-- the DOS time stamp of every even second from 1980-01-01 below 2³² converts back exactly -/
+theorem dos_time_roundtrip (t : Nat) (h1 : 315532800 ≤ t) (h2 : t < 4294967296) (h3 : t % 2 = 0) :
+    Header.dosTimeUTC (ArchiveOs.unixToDos t) = t :=
+  ArchiveOs.dosTime_inverse t h1 h2 h3
 
 end LhasaV.Props.C06
